@@ -240,6 +240,11 @@ def main(argv=None):
         return 0
 
     REPLAYS.mkdir(parents=True, exist_ok=True)
+    for old in REPLAYS.glob(f"{prop}-*.json"):
+        try:
+            old.unlink()
+        except OSError:
+            pass
     viol_lines = []
     for k in unknown_keys:
         recs = agg["viol"][k]
